@@ -166,7 +166,15 @@ pub fn slice_matches_reference(input: &[u8], k: u8, invert: bool, after: usize, 
     let r = searcher.search_slice(ByteMatcher(k), input, &mut rec);
     let exp = expected(input, k, invert, after, before);
     if exp.len() > MAXEV { return true; } // recording capacity exceeded: not compared
-    r.is_ok() && rec.n + 1 == exp.len() && rec.evs[..exp.len()] == exp[..]
+    if !(r.is_ok() && rec.n + 1 == exp.len() && rec.evs[..exp.len()] == exp[..]) { return false; }
+    // the same through the forwarding impls of Sink (`&mut S` inside a `Box<dyn Sink>`): every callback,
+    // separators included, must reach the sink
+    let mut rec2 = Rec::new(input, MAXEV * 4);
+    let r2 = {
+        let boxed: Box<dyn Sink<Error = std::io::Error> + '_> = Box::new(&mut rec2);
+        searcher.search_slice(ByteMatcher(k), input, boxed)
+    };
+    r2.is_ok() && rec2.n + 1 == exp.len() && rec2.evs[..exp.len()] == exp[..]
 }
 
 /// The grep model extended by passthru (every unselected line is delivered as `Other` context; only with
